@@ -204,7 +204,7 @@ def clause_gen_poly(R):
     R.analysed.setdefault("unsupported", []).extend(S.unsupported[:5])
 
 
-def clause_gs_norm(R):
+def clause_gs_norm(R, rule="C04-gsnorm"):
     S = c10.session()
     ctx = S.ctx
     i16 = S.ty("i16")
@@ -228,7 +228,7 @@ def clause_gs_norm(R):
     outs = S.run(gs, [f, g], st)
     site = "gram_schmidt_norm_squared"
     if errs or len(outs) != 1 or type(outs[0][0]) is not Fl:
-        R.violation("C04-gsnorm", site, f"no symbolic result ({errs[:1]}, {len(outs)} outcomes)", key="gsnorm|run")
+        R.violation(rule, site, f"no symbolic result ({errs[:1]}, {len(outs)} outcomes)", key="gsnorm|run")
         return
     r, s2 = outs[0]
     def leaf(env):
@@ -273,7 +273,7 @@ def clause_gs_norm(R):
     except NotSymbolic as e:
         ok = False
         detail = f"not symbolic: {e}"
-    R.check(ok, "C04-gsnorm", site, "equals max(|f|^2 + |g|^2, (1/n) sum |q conj(f^)/(f^ f^* + g^ g^*)|^2 + |q conj(g^)/(..)|^2) at random points in both regimes of the max", detail, key="gsnorm|formula")
+    R.check(ok, rule, site, "equals max(|f|^2 + |g|^2, (1/n) sum |q conj(f^)/(f^ f^* + g^ g^*)|^2 + |q conj(g^)/(..)|^2) at random points in both regimes of the max", detail, key="gsnorm|formula")
     R.analysed.setdefault("unsupported", []).extend(S.unsupported[:5])
 
 
